@@ -53,6 +53,9 @@ CONST_FNS = {
     # dependence only through an argument registered as non-differentiable (the condition of np.where), broadcast against larger branches
     "where-condition": ("lambda x: np.sum(np.where(x, AA, BB))", "scalar"), "where-condition-array": ("lambda x: np.where(x, AA, BB)", "array"),
     "floor-then-smooth": ("lambda x: np.sum(np.sin(np.floor(x)) * AA[0])", "scalar"),
+    # constant outputs that are not finite (a log-mask, an infinite bound): the zero must not be obtained by multiplying the output by 0
+    "inf-scalar": ("lambda x: onp.inf", "scalar"), "log-mask": ("lambda x: onp.array([0.0, -onp.inf, 0.0])", "array"),
+    "nan-entry": ("lambda x: onp.array([1.0, onp.nan])", "array"), "container-with-inf": ("lambda x: ab.tuple((onp.inf, onp.array([-onp.inf, 2.0])))", "container"),
 }
 OPERATORS = ["grad", "value_and_grad", "elementwise_grad", "jacobian", "make_vjp", "make_jvp", "deriv", "hessian", "make_hvp", "grad-of-grad",
              "holomorphic_grad", "grad_and_aux", "tensor_jacobian_product", "hessian_tensor_product", "make_vjp-reused", "grad-reused"]
